@@ -30,6 +30,7 @@ func init() {
 		&Rule{ID: "PG-EMIT", Doc: "operands are emitted before their operator (postfix), left before right (left-assoc)", Run: rulePGEmit, Min: 12},
 		&Rule{ID: "PG-OPMAP", Doc: "every operator token of the grammar maps to a defined, non-nil expression op: literal -> operatorMap -> Operator.ToExpr -> biscuit op", Run: rulePGOpMap, Min: 19},
 		&Rule{ID: "PG-ERR", Doc: "no error returned inside package parser is discarded", Run: rulePGErr, Min: 10},
+		&Rule{ID: "PG-TERMS", Doc: "every scalar term the parser produces has the type of the grammar alternative it was read from and is computed from that alternative's text only (Integer from Integer, String from String, Variable from Variable, Bool from Bool, Date from Date, Bytes from Bytes)", Run: rulePGTerms, Min: 6},
 		&Rule{ID: "PG-LITERAL", Doc: "malformed literals, variables in sets and unbound parameters are reported on every path", Run: rulePGLiteral, Min: 3},
 		&Rule{ID: "PR-TABLE", Doc: "a token prints each of its blocks with the token-wide symbol table itself (the one the authorizer resolves with), and the block printers resolve with the table they were given", Run: rulePRTable, Min: 4},
 		&Rule{ID: "PR-OPSYM", Doc: "the printer's symbol for every operator is the one the parser reads for it", Run: rulePROpSym, Min: 20},
@@ -1684,6 +1685,65 @@ func rulePRTable(p *Prog, r *Reporter) {
 				}
 				r.Check(okT, p.instrPos(in), name, "table of "+c.Common().StaticCallee().Name(), "the block is printed with the token-wide table b.symbols", "a block of a token is printed with a table other than the token-wide table b.symbols that the authorizer resolves it with ("+p.D(args[len(args)-1])+"): the text shown for the block names other symbols than the ones enforced")
 			}
+		}
+	}
+}
+
+// rulePGTerms: "terms of the right type and value". Term.ToBiscuit turns the alternative the grammar
+// matched (one non-nil field of parser.Term) into a biscuit term. For every scalar biscuit term built in
+// it, the value must be computed from the field of the same name and from no other field of the parsed
+// term: a String built from the Variable capture, or a Bool built from the Integer, is a term of the
+// wrong type or value that no unit test of the other alternatives notices.
+func rulePGTerms(p *Prog, r *Reporter) {
+	globalP = p
+	term := p.NamedType("parser", "Term")
+	var fn *ssa.Function
+	if term != nil {
+		fn = p.method(term, "ToBiscuit")
+	}
+	if fn == nil || len(fn.Params) == 0 {
+		r.Dunno("?", "parser.Term", "ToBiscuit", "not found")
+		return
+	}
+	name := p.FuncName(fn)
+	recv := fn.Params[0]
+	scalar := map[string]bool{"Integer": true, "String": true, "Variable": true, "Bool": true, "Date": true, "Bytes": true}
+	fieldsOf := func(v ssa.Value) map[string]bool {
+		out := map[string]bool{}
+		dependsOn(v, func(x ssa.Value) bool {
+			if fa, ok := x.(*ssa.FieldAddr); ok && fa.X == ssa.Value(recv) {
+				out[fieldName(fa)] = true
+			}
+			return false
+		})
+		return out
+	}
+	seen := map[string]bool{}
+	for _, b := range fn.Blocks {
+		for _, in := range b.Instrs {
+			mi, ok := in.(*ssa.MakeInterface)
+			if !ok {
+				continue
+			}
+			n, isN := mi.X.Type().(*types.Named)
+			if !isN || n.Obj().Pkg() == nil || shortNames[n.Obj().Pkg().Path()] != "biscuit" || !scalar[n.Obj().Name()] {
+				continue
+			}
+			t := n.Obj().Name()
+			seen[t] = true
+			deps := fieldsOf(mi.X)
+			var names []string
+			for f := range deps {
+				names = append(names, f)
+			}
+			sort.Strings(names)
+			okT := len(deps) == 1 && deps[t]
+			r.Check(okT, p.instrPos(mi), name, "biscuit."+t+" term", "computed from the "+t+" alternative of the parsed term only", fmt.Sprintf("a biscuit.%s term is computed from the field(s) %v of the parsed term instead of from its %s alternative alone: the parser returns a term of the wrong type or value for some documented text", t, names, t))
+		}
+	}
+	for t := range scalar {
+		if !seen[t] {
+			r.Bad(p.Pos(fn.Pos()), name, "biscuit."+t+" term", "Term.ToBiscuit builds no biscuit."+t+" term: the "+t+" alternative of the grammar is not converted (or is converted outside the enumerated idiom)")
 		}
 	}
 }
